@@ -85,10 +85,15 @@ Inductive item :=
 
 Inductive utest := UAny | UPos (l : list item) | UNeg (l : list item).
 
-(* ---------------- Spec: satisfaction (two-valued, for well-typed tests) ---------------- *)
+(* ---------------- Spec: satisfaction (two-valued; defined for EVERY value and every test: a literal is satisfied by the equal
+   value only — the literal null by the null value —, a comparison or interval only by a value of the kind of its
+   number / string endpoints, so by no null value and no value of another kind; `-` by every value, null included;
+   not(...) by every value that satisfies none of the tests, so also by a null value against comparisons) ---------------- *)
 Definition lt_atom (a b : atom) : bool :=
   match a, b with ANum x, ANum y => Z.ltb x y | AStr x, AStr y => N.ltb x y | _, _ => false end.
-Definition le_atom (a b : atom) : bool := lt_atom a b || atom_eqb a b.
+(* FEEL orders numbers among themselves and strings among themselves: `<= true`, `<= null` hold of no value *)
+Definition le_atom (a b : atom) : bool :=
+  match a, b with ANum x, ANum y => Z.leb x y | AStr x, AStr y => N.leb x y | _, _ => false end.
 
 Definition sat_item (x : atom) (i : item) : bool :=
   match i with
@@ -612,3 +617,9 @@ Definition no_null_lits (t : table) : bool :=
   forallb (fun r => forallb utest_nonnull (r_in r)) (t_rules t).
 
 Definition typed (t : table) (xs : list atom) : bool := typed_nl t xs && no_null_lits t.
+
+(* the hypotheses of the refinement theorem about the code as it is (C03_policy_refines), besides wf: no null literal in
+   the table (known finding null-literal-entry) and one input value per input clause.  Nothing is asked of the input values:
+   null inputs and values of another kind than the literals of an entry are inside. *)
+Definition arity_ok (t : table) (xs : list atom) : bool := Nat.eqb (length xs) (length (t_inputs t)).
+Definition in_scope (t : table) (xs : list atom) : bool := no_null_lits t && arity_ok t xs.
